@@ -236,7 +236,8 @@ PROPS["C09"] = {
     "legs": [plain("conc", "pcache", "TestC09Conc", race=True,
                    shards={"quick": 4, "thorough": 16},
                    env={"quick": {"VK_C09_WORKLOADS": "400"}, "thorough": {"VK_C09_WORKLOADS": "20000"}}),
-             plain("bigclear", "pcache", "TestC09BigClear", race=True, shards={"quick": 2, "thorough": 8})],
+             plain("bigclear", "pcache", "TestC09BigClear", race=True, shards={"quick": 2, "thorough": 8}),
+             plain("multi", "pcache", "TestC09Multi", race=True, shards={"quick": 2, "thorough": 8})],
     "rule": "workloads are drawn as data by a rapid generator (Example seeds derived from VERIF_SEED and the shard): 2-4 "
             "goroutines x 4-12 calls of Has/Get/Put/Remove/Len/Size/Clear over keys 0..3, unique values of size 1-3, "
             "limit 3-5 (at most 5 entries, so known finding F2 cannot be exposed and the sequential specification is the "
